@@ -294,6 +294,203 @@ func asyncScenarios(maxBound func(n int) int) []scenario {
 	return out
 }
 
+// ---------- nested async calls ----------
+
+// nestedScenarios: the callback of an async call itself calls an async operation - on the element it was
+// given (a nested list), on the outer receiver, or on an unrelated list. Each worker of the outer call then
+// waits for its own group of inner workers while other outer workers do the same. The statement's "MapAsync
+// returns exactly what Map returns for the same pure function" and the completion barrier apply at both levels.
+func nestedScenarios(bound func(threads int) int) []scenario {
+	var out []scenario
+	for _, okind := range []string{"list", "object"} {
+		for _, oop := range []string{"MapAsync", "ForEachAsync"} {
+			for _, iop := range []string{"MapAsync", "ForEachAsync"} {
+				for _, tgt := range []string{"element", "receiver", "other"} {
+					for _, sz := range [][2]int{{1, 1}, {2, 1}, {1, 2}, {2, 2}} {
+						no, ni := sz[0], sz[1]
+						if tgt == "receiver" && no != ni {
+							continue
+						}
+						okind, oop, iop, tgt := okind, oop, iop, tgt
+						name := fmt.Sprintf("%s(n=%d).%s{ %s(n=%d).%s }", okind, no, oop, tgt, ni, iop)
+						out = append(out, scenario{Name: name, Family: "async-nested", MaxBound: bound(no + no*ni), Mk: func() *instance {
+							other := at.NewList(intsTo(ni, 100)...)
+							elems := make([]interface{}, no)
+							for i := range elems {
+								if tgt == "element" {
+									elems[i] = at.NewList(intsTo(ni, 10*(i+1))...)
+								} else {
+									elems[i] = i + 1
+								}
+							}
+							keys := []string{"a", "b"}[:no]
+							var outerL at.List
+							var outerO at.Object
+							if okind == "list" {
+								outerL = at.NewList(elems...)
+							} else {
+								outerO = at.NewObject()
+								for i, k := range keys {
+									outerO.Set(k, elems[i])
+								}
+							}
+							st := &asyncState{starts: map[string]int{}, ends: map[string]int{}}
+							want := map[string]bool{}
+							innerKeys := func() []string {
+								if tgt == "receiver" && okind == "object" {
+									return keys
+								}
+								ks := make([]string, ni)
+								for j := range ks {
+									ks[j] = fmt.Sprint(j)
+								}
+								return ks
+							}()
+							for i := 0; i < no; i++ {
+								ok := fmt.Sprint(i)
+								if okind == "object" {
+									ok = keys[i]
+								}
+								want["outer "+ok+"="+ident("")] = true
+								for _, ik := range innerKeys {
+									want["inner "+ok+"/"+ik+"="+ident("")] = true
+								}
+							}
+							// the inner operation: async (real = true) or its sequential counterpart (for the expected value)
+							inner := func(real bool, okey string, v interface{}) interface{} {
+								var target interface{} = other
+								if tgt == "element" {
+									target = v
+								} else if tgt == "receiver" {
+									if okind == "list" {
+										target = outerL
+									} else {
+										target = outerO
+									}
+								}
+								note := func(ik string) {
+									if real {
+										st.add("s", "inner "+okey+"/"+ik, "")
+										st.add("e", "inner "+okey+"/"+ik, "")
+									}
+								}
+								switch t := target.(type) {
+								case at.List:
+									f := func(j int, x interface{}) interface{} {
+										note(fmt.Sprint(j))
+										return tagKV(okey+"/"+fmt.Sprint(j), scalarOf(x))
+									}
+									g := func(j int, x interface{}) { note(fmt.Sprint(j)) }
+									switch {
+									case iop == "MapAsync" && real:
+										return t.MapAsync(f)
+									case iop == "MapAsync":
+										return t.Map(f)
+									case real:
+										t.ForEachAsync(g)
+									default:
+										t.ForEach(g)
+									}
+								case at.Object:
+									f := func(k string, x interface{}) interface{} { note(k); return tagKV(okey+"/"+k, scalarOf(x)) }
+									g := func(k string, x interface{}) { note(k) }
+									switch {
+									case iop == "MapAsync" && real:
+										return t.MapAsync(f)
+									case iop == "MapAsync":
+										return t.Map(f)
+									case real:
+										t.ForEachAsync(g)
+									default:
+										t.ForEach(g)
+									}
+								}
+								return "done " + okey
+							}
+							return &instance{Body: func() {
+								var res, exp interface{}
+								var same bool
+								cbL := func(real bool) func(i int, v interface{}) interface{} {
+									return func(i int, v interface{}) interface{} {
+										if real {
+											st.add("s", "outer "+fmt.Sprint(i), "")
+										}
+										r := inner(real, fmt.Sprint(i), v)
+										if real {
+											st.add("e", "outer "+fmt.Sprint(i), "")
+										}
+										return r
+									}
+								}
+								cbO := func(real bool) func(k string, v interface{}) interface{} {
+									return func(k string, v interface{}) interface{} {
+										if real {
+											st.add("s", "outer "+k, "")
+										}
+										r := inner(real, k, v)
+										if real {
+											st.add("e", "outer "+k, "")
+										}
+										return r
+									}
+								}
+								switch {
+								case okind == "list" && oop == "MapAsync":
+									res = outerL.MapAsync(cbL(true))
+								case okind == "list":
+									same = outerL.ForEachAsync(func(i int, v interface{}) { cbL(true)(i, v) }) == outerL
+								case oop == "MapAsync":
+									res = outerO.MapAsync(cbO(true))
+								default:
+									same = outerO.ForEachAsync(func(k string, v interface{}) { cbO(true)(k, v) }) == outerO
+								}
+								e := st.endCount()
+								msg := ""
+								if oop == "MapAsync" {
+									if okind == "list" {
+										exp = outerL.Map(cbL(false))
+										rl, _ := res.(at.List)
+										same = rl != nil && rl.Equals(exp.(at.List)) && exp.(at.List).Equals(rl)
+									} else {
+										exp = outerO.Map(cbO(false))
+										ro, _ := res.(at.Object)
+										same = ro != nil && ro.Equals(exp.(at.Object)) && exp.(at.Object).Equals(ro)
+									}
+									if !same {
+										msg = fmt.Sprintf("nested MapAsync returned %s, the sequential Map returns %s", render(res), render(exp))
+									}
+								}
+								st.mu.Lock()
+								st.endsAtReturn, st.returned, st.retSame, st.resOK = e, true, same, msg
+								st.mu.Unlock()
+							}, Oracle: asyncOracle(st, name, want, len(want), oop == "MapAsync"),
+								Outcome: func() string { st.mu.Lock(); defer st.mu.Unlock(); return strings.Join(st.log, " ") }}
+						}})
+					}
+				}
+			}
+		}
+	}
+	return out
+}
+
+func intsTo(n, base int) []interface{} {
+	v := make([]interface{}, n)
+	for i := range v {
+		v[i] = base + i
+	}
+	return v
+}
+
+// scalarOf keeps scalars and replaces containers by their rendering (callback results must not nest the receiver in itself)
+func scalarOf(x interface{}) interface{} {
+	switch x.(type) {
+	case at.List, at.Object:
+		return render(x)
+	}
+	return x
+}
+
 func safeStr(l at.List) (s string) {
 	defer func() {
 		if recover() != nil {
@@ -339,7 +536,9 @@ func listRoOps() []roOp {
 			vals[len(vals)-1] = "differs"
 			return L(s).Equals(at.NewList(vals...))
 		}},
-		{"Equals(equal copy)", func(s interface{}, _ at.List, _ at.Object) interface{} { return L(s).Equals(at.NewList(L(s).Slice()...)) }},
+		{"Equals(equal copy)", func(s interface{}, _ at.List, _ at.Object) interface{} {
+			return L(s).Equals(at.NewList(L(s).Slice()...))
+		}},
 		{"SubList(0,0)", func(s interface{}, _ at.List, _ at.Object) interface{} { return L(s).SubList(0, 0) }},
 		{"Concat(own)", func(s interface{}, own at.List, _ at.Object) interface{} { return L(s).Concat(own) }},
 		{"Filter(always)", func(s interface{}, _ at.List, _ at.Object) interface{} {
@@ -670,7 +869,6 @@ func fineScenarios(bound int) []scenario {
 	}
 	return out
 }
-
 
 // ---------- family (a'): larger containers under different GOMAXPROCS settings ----------
 // All interleavings are out of reach for 4..17 workers; these scenarios are explored up to a small
